@@ -220,6 +220,8 @@ pub fn build_req(id: u32, method: String, path: String, version: &str, mut extra
         let at = (mask as usize >> 16) % (extra.len() + 1);
         extra.insert(at, Hdr { name: case_variant("Expect", mask >> 7), pre: " ".into(), value: case_variant("100-continue", mask >> 9), post: String::new() });
     }
+    // framing follows the headers alone: a body-carrying request may use any method
+    let method = if method == "POST" && mask != 0 && (mask >> 22) % 3 == 0 { ["HEAD", "GET", "PUT", "DELETE", "PATCH", "OPTIONS", "TRACE", "FROB", "CONNECT", "head"][(mask as usize >> 25) % 10].to_string() } else { method };
     ReqSpec { id, method, path, target_prefix: String::new(), version: version.to_string(), headers: extra, framing, mal: None, body_override: None }
 }
 
@@ -496,17 +498,30 @@ pub fn c10_malform(n_headers: usize) -> BoxedStrategy<Malform> {
 }
 
 pub fn c10_strategy(transports: BoxedStrategy<Transport>) -> BoxedStrategy<ConvCase> {
-    (1usize..=4, any::<proptest::sample::Index>(), headers_strategy(3), transports, proptest::collection::vec(small_respond(), 4), proptest::option::weighted(0.3, prop_oneof![Just(1usize), Just(600usize), Just(1024usize), Just(1025usize), Just(5000usize)]))
-        .prop_flat_map(|(n, at, headers, transport, fins, withheld)| {
+    (1usize..=4, any::<proptest::sample::Index>(), headers_strategy(3), transports, proptest::collection::vec(small_respond(), 4), proptest::option::weighted(0.3, prop_oneof![Just(1usize), Just(600usize), Just(1024usize), Just(1025usize), Just(5000usize)]), prop_oneof![1 => Just(0u32), 2 => any::<u32>()])
+        .prop_flat_map(|(n, at, headers, transport, fins, withheld, variety)| {
             let at = at.index(n);
             let nh = headers.len() + 1;
-            (Just((n, at, headers, transport, fins, withheld)), c10_malform(nh))
+            (Just((n, at, headers, transport, fins, withheld, variety)), c10_malform(nh))
         })
-        .prop_map(|((n, at, headers, transport, fins, withheld), mal)| {
+        .prop_map(|((n, at, headers, transport, fins, withheld, variety), mal)| {
             let mut conv = Conversation::default();
             let mut withheld_at: Option<usize> = None;
             for i in 0..n {
                 let mut r = ReqSpec::simple(i as u32);
+                // the requests around (and the offending one, where its defect is not in the
+                // request line) come in both protocol versions and with any method
+                let bits = variety >> (i * 6);
+                let line_defect = i == at && matches!(mal, Malform::ReqLineFields(_) | Malform::VersionToken(_));
+                if !line_defect {
+                    if bits & 3 == 3 {
+                        r.version = "HTTP/1.0".into();
+                        if bits & 4 != 0 || i != at {
+                            r.headers.push(Hdr::new("Connection", "keep-alive"));
+                        }
+                    }
+                    r.method = ["GET", "GET", "POST", "PUT", "DELETE", "OPTIONS", "PATCH", "HEAD"][((bits >> 3) & 7) as usize].into();
+                }
                 if i == at {
                     r.headers.extend(headers.clone());
                     // clamp indices to this request's header list
@@ -770,8 +785,8 @@ pub fn c06_strategy(transports: BoxedStrategy<Transport>, with_panic: bool) -> B
             let len = framing_body_len(&f);
             (Just(f), Just(head), prop_oneof![2 => Just(ReadPlan::None), 1 => Just(ReadPlan::Sizes(vec![(len / 2).max(1)])), 2 => Just(ReadPlan::ToEof { buf: 2048, extra: 0 })], finish(), any::<u32>())
         });
-    (proptest::collection::vec(one, 1..=5), transports, proptest::bool::weighted(0.3))
-        .prop_map(|(items, transport, upgrade_last)| {
+    (proptest::collection::vec(one, 1..=5), transports, proptest::bool::weighted(0.3), any::<bool>())
+        .prop_map(|(items, transport, upgrade_last, wait_101)| {
             let n = items.len();
             let mut conv = Conversation::default();
             let mut progs = vec![];
@@ -790,7 +805,14 @@ pub fn c06_strategy(transports: BoxedStrategy<Transport>, with_panic: bool) -> B
                 progs.push(Prog { read, finish });
             }
             let total = total_len(&conv);
-            let script = vec![Step::Send { from: 0, to: total }, Step::HalfClose];
+            let script = if upgrade_last && wait_101 {
+                // the client speaks on the upgraded stream only once it has seen the 101
+                let rd = render(&conv);
+                let cut = rd.ranges[n - 1].head_end;
+                vec![Step::Send { from: 0, to: cut }, Step::AwaitFinals(n), Step::Send { from: cut, to: total }, Step::HalfClose]
+            } else {
+                vec![Step::Send { from: 0, to: total }, Step::HalfClose]
+            };
             ConvCase { conv, progs, script, transport }
         })
         .boxed()
